@@ -358,6 +358,10 @@ type State struct {
 
 func NewState() *State { return &State{MarkTypes: map[string]string{}} }
 
+// MaxRefTravelers bounds the number of travelers the reference keeps between
+// two steps.
+const MaxRefTravelers = 60000
+
 // Eval interprets stmts over g. The program must be well typed (the
 // generators guarantee it); typ is filled with the documented result type.
 func Eval(g *G, stmts []*gripql.GraphStatement) (spec Spec, typ string) {
@@ -369,6 +373,12 @@ func Eval(g *G, stmts []*gripql.GraphStatement) (spec Spec, typ string) {
 			return Spec{Err: err}, st.Typ
 		} else if ok {
 			ts = nts
+			if len(ts) > MaxRefTravelers {
+				// repeated fan-out on parallel edges and self loops grows
+				// exponentially with the program length; such a case is skipped
+				// (inconclusive) before the implementation is run on it
+				return Spec{Err: "reference fans out beyond the modelled bound"}, st.Typ
+			}
 			continue
 		}
 		typ = st.Typ
